@@ -171,6 +171,43 @@ func TestProp(t *testing.T) {
 	if vh.Thorough() {
 		r.Exhaustive("kind x etype x payload length 0..300 x flags 0..7 x seq set x usage {22..25}")
 	}
+	// beyond the statement's enumeration: every value of the flags octet, key usage numbers with bits above the lowest octet,
+	// and payloads around 2^16 octets (the EC / RRC fields are 16 bits wide, the token length is not)
+	type ext struct {
+		kind string
+		et   int32
+		n    int
+		c    combo
+	}
+	var exts []ext
+	for _, kind := range []string{"wrap", "mic"} {
+		for ei, et := range kcrypto.Etypes {
+			for f := 8; f < 256; f++ {
+				exts = append(exts, ext{kind, et, (f*7 + ei) % 48, combo{flags: byte(f), seq: seqs[f%6], usage: usages[(f/6)%4]}})
+			}
+			for ui, u := range []uint32{0, 22 + 256, 23 + 1<<16, 24 + 1<<24, 0x1234, 0x00010200, 0x12345678, 0x80000019, 0xffffffff} {
+				for _, n := range []int{0, 1, 31, 64} {
+					exts = append(exts, ext{kind, et, n, combo{flags: byte((ui + n) % 8), seq: seqs[(ui+ei)%6], usage: u}})
+				}
+			}
+			lens := []int{65535 - 16 - 24, 65535 - 16 - 16, 65535 - 16 - 12, 65535 - 16, 65500, 65520, 65524, 65530, 65535, 65536, 65537, 65536 + 300, 131072 + 5}
+			if vh.Thorough() {
+				for n := 65536 - 16 - 24 - 2; n <= 65536+26; n++ {
+					lens = append(lens, n)
+				}
+			}
+			for li, n := range lens {
+				exts = append(exts, ext{kind, et, n, combo{flags: byte((li + ei) % 8), seq: seqs[li%6], usage: usages[li%4]}})
+			}
+		}
+	}
+	vh.Workers(len(exts), func(i int) {
+		e := exts[i]
+		tl := tally{}
+		tl.inc("ext_tokens")
+		token(r, tl, e.kind, e.et, e.n, e.c)
+		tl.flush(r)
+	})
 	r.Exhaustive("single-bit flips, truncations and filler values of every sampled token")
 
 	r.Require("marshal_equal", 40000)
@@ -189,6 +226,8 @@ func TestProp(t *testing.T) {
 	r.Require("neg_other_usage_false", 5000)
 	r.Require("newinitiator_ok", 3000)
 	r.Require("observe_rrc_flip", 10000)
+	r.Require("ext_tokens", 3000)
+	r.Require("ext_reserved_flag_tokens_judged", 2900)
 }
 
 func keyFor(et int32, n int) []byte {
@@ -263,6 +302,17 @@ func token(r *vh.Run, tl tally, kind string, et int32, n int, c combo) {
 	key := keyFor(et, n)
 	ekey := types.EncryptionKey{KeyType: et, KeyValue: key}
 	payload := rnd.Bytes(n)
+	if c.flags >= 8 {
+		// RFC 4121 4.2.2 reserves the five upper bits of the flags octet ("MUST be cleared"). A library may carry them as given
+		// or clear them; what it may not do is put one value on the wire and another under the checksum. When the token built
+		// from these fields is octet for octet the RFC token for the three defined flags, the reserved bits were cleared
+		// consistently and the case continues as that token; otherwise it is judged with the flags as given.
+		if cleared, ok := builtWithClearedFlags(kind, ekey, c, payload); ok {
+			tl.inc("observe_reserved_flag_bits_cleared_consistently")
+			c.flags = cleared
+		}
+		tl.inc("ext_reserved_flag_tokens_judged")
+	}
 	fromAcc := c.flags&gss.FlagSentByAcceptor != 0
 	cl := kcrypto.CksumLen(et)
 
@@ -409,11 +459,44 @@ func token(r *vh.Run, tl tally, kind string, et int32, n int, c combo) {
 		}
 	}
 
+	if n > maxLen {
+		// the transformations below are exhaustive over the bits and lengths of a token: not for 64 KiB tokens
+		tl.inc("ext_long_tokens")
+		return
+	}
 	if vh.NewRand("c17neg", ck).Intn(16) != 0 && r.Only() == "" {
 		return
 	}
 	tl.inc("neg_sampled_tokens")
 	negatives(r, tl, kind, ck, et, key, c, payload, want, rnd, detail)
+}
+
+// builtWithClearedFlags builds the token with gokrb5 and says whether it equals the reference token for flags&7.
+func builtWithClearedFlags(kind string, ekey types.EncryptionKey, c combo, payload []byte) (byte, bool) {
+	cleared := c.flags & 7
+	var got, want []byte
+	var err error
+	if p, _, _ := vh.Guard(func() {
+		if kind == "wrap" {
+			wt := gssapi.WrapToken{Flags: c.flags, EC: uint16(kcrypto.CksumLen(ekey.KeyType)), SndSeqNum: c.seq, Payload: append([]byte{}, payload...)}
+			if err = wt.SetCheckSum(ekey, c.usage); err == nil {
+				got, err = wt.Marshal()
+			}
+		} else {
+			mt := gssapi.MICToken{Flags: c.flags, SndSeqNum: c.seq, Payload: append([]byte{}, payload...)}
+			if err = mt.SetChecksum(ekey, c.usage); err == nil {
+				got, err = mt.Marshal()
+			}
+		}
+	}); p || err != nil {
+		return 0, false
+	}
+	if kind == "wrap" {
+		want, err = gss.BuildWrap(ekey.KeyType, ekey.KeyValue, c.usage, cleared, c.seq, payload)
+	} else {
+		want, err = gss.BuildMIC(ekey.KeyType, ekey.KeyValue, c.usage, cleared, c.seq, payload)
+	}
+	return cleared, err == nil && firstDiff(got, want) < 0
 }
 
 // notAccepted reports an untouched RFC 4121 token that the gokrb5 receiver does not accept; one
